@@ -58,6 +58,22 @@ impl Reg {
             Reg::AU915 => (915_000_000, 928_000_000),
         }
     }
+    /// A sub-band every edition / national rule of the plan allows: a frequency inside it is
+    /// unambiguously valid.
+    pub fn inner_band(self) -> (u32, u32) {
+        match self {
+            Reg::AS923_1 => (923_000_000, 925_000_000),
+            Reg::AS923_2 => (921_000_000, 923_000_000),
+            Reg::AS923_3 => (916_000_000, 918_000_000),
+            Reg::AS923_4 => (917_000_000, 920_000_000),
+            Reg::AU915 => (915_000_000, 928_000_000),
+            r => r.band(),
+        }
+    }
+    pub fn clearly_valid_freq(self, f: u32) -> bool {
+        let (lo, hi) = self.inner_band();
+        (lo..=hi).contains(&f)
+    }
     pub fn in_band(self, f: u32) -> bool {
         let (lo, hi) = self.band();
         (lo..=hi).contains(&f)
